@@ -107,6 +107,45 @@ func roundTrip(w *ev.Writer, h *Handler, p any, val any, extra ev.M) []byte {
 		emit("RT", ev.M{"text": hex.EncodeToString(text), "back": "", "err": "marshal"})
 		return nil
 	}
+	// the same value held BY VALUE (in an interface: not addressable, as a map element or a field of a struct passed by
+	// value would be): encoding/json must find the same encoder. Equal text: noted on the event; another text: one more run
+	if vtext, differs := marshalHeldByValue(p, text); differs {
+		defer func() {
+			base["held"] = "value"
+			delete(base, "byval")
+			finishRun(h, vtext, emit)
+		}()
+	} else {
+		base["byval"] = 1
+	}
+	finishRun(h, text, emit)
+	return text
+}
+
+// marshalHeldByValue marshals *p as a non-addressable value. differs = the text is not the one the type's encoder gave.
+func marshalHeldByValue(p any, text []byte) (vtext []byte, differs bool) {
+	defer func() {
+		if r := recover(); r != nil {
+			vtext, differs = []byte("panic: "+fmt.Sprint(r)), true
+		}
+	}()
+	rv := reflect.ValueOf(p)
+	if rv.Kind() != reflect.Pointer || rv.IsNil() {
+		return nil, false
+	}
+	vtext, err := json.Marshal(rv.Elem().Interface())
+	if err != nil {
+		return []byte("error: " + err.Error()), true
+	}
+	var a, b bytes.Buffer
+	if json.Compact(&a, text) != nil || json.Compact(&b, vtext) != nil {
+		return vtext, !bytes.Equal(text, vtext)
+	}
+	return vtext, !bytes.Equal(a.Bytes(), b.Bytes())
+}
+
+// finishRun: text --Unmarshal--> v' and the RT (or Panic) event of the run
+func finishRun(h *Handler, text []byte, emit func(string, ev.M)) []byte {
 	p2, errc, pan := unmarshal(h, text, false)
 	if pan != "" {
 		emit("Panic", ev.M{"op": "unmarshal", "text": hex.EncodeToString(text), "panic": pan})
